@@ -160,6 +160,7 @@ def expand_op(tid, op, res):
 
 
 def op_strategy(names=None):
+    pooled = names is not None
     names = names or ordinary_names()
     nm = st.sampled_from(names)
     seed = S.u64
@@ -167,7 +168,12 @@ def op_strategy(names=None):
     x = st.integers(0, 15)
     tsingle = st.sampled_from(['TRACE_DATA_THREAD_TERMINATE', 'TRACE_DATA_THREAD_TERMINATE_PID',
                                'TRACE_STRING_PROC_EXIT', 'TRACE_DATA_NEWTHREAD', 'TRACE_DATA_EXEC'])
+    # with a small shared pool of names, lone ENDs and lone STARTs of those very calls are drawn on purpose (one thread's
+    # unopened END while another thread is inside the same call)
+    lone = [st.tuples(st.just('raw'), nm, seed, st.just(2), x), st.tuples(st.just('raw'), nm, seed, st.just(2), x),
+            st.tuples(st.just('raw'), nm, seed, st.just(1), x)] if pooled else []
     return st.one_of(
+        *lone,
         st.tuples(st.just('call'), nm, seed, k3, x),
         st.tuples(st.just('call'), nm, seed, k3, x),
         st.tuples(st.just('single'), nm, seed, k3, x),
